@@ -396,7 +396,8 @@ class InteractionsEncoder:
             else:
                 terms.append([v*t for v,s in zip(values,starts) for t in terms[d][(s-1):]])
 
-            starts = list(accumulate(starts[:1]+starts[-1:]+starts[1:-1]))
+            n_prev = len(terms[d])
+            starts = list(accumulate([1]+[n_prev-s+1 for s in starts[:-1]]))
 
         return terms
 
